@@ -20,6 +20,7 @@ for ID in $IDS; do
   git -C $R/repo apply $PATCH
   OUT=$(timeout 1800 ./check $P --tier $TIER 2>/dev/null | grep -E "^(VIOLATION|OK)" | sed -E 's/replay=replays\/C[0-9]+\///' | head -4 | tr '\n' ' ')
   git -C $R/repo checkout -q -- .
+  git -C $R/repo clean -fdq src tests
   echo "$ID $OUT" | cut -c1-400 | tee -a $R/result.txt
 done
 echo "done: $(grep -c VIOLATION $R/result.txt) detected of $(wc -l < $R/result.txt)" | tee -a $R/result.txt
